@@ -26,7 +26,7 @@ from tracelib import *
 PROP = "C06"
 LEVEL = "exploration"
 FLAVOUR = "plain"
-TIERS = {"quick": (20000, 170), "thorough": (600000, 3300)}
+TIERS = {"quick": (10000, 170), "thorough": (200000, 3300)}
 RULE_TEXT = ("one run = one generated promela-datamodel chart (<= 10 states, parallel/history/final, internal/targetless/multi-target/eventless transitions, "
              "raise/send/assign/if/log/cancel content, integer conditions) executed by spin -T -n<seed> (emitted model) and by the interpreter in the simulator with "
              "delayed events released in the model's order; compared: events dequeued, exits, entries, log values, configurations, termination (raised and sent events through the order in which they are dequeued); "
@@ -59,21 +59,28 @@ def fit(root):
 
 def environment(root, rp):
     """The model is a closed system: what the environment would send is scripted as delayed sends with distinct delays in the
-    first state's entry handler (they are external events like any other, and the model decides their order)."""
-    first = [c for c in root.children if c.tag in ("state", "parallel")]
+    entry handler of an extra initial state that is entered once (they are external events like any other, and the model
+    decides their order)."""
+    first = [c for c in root.children if c.tag in ("state", "parallel", "final")]
     if not first:
         return
-    blk = gen.El("onentry")
-    delays = rp.sample(range(3, 60), rp.randint(1, 4))
+    target = root.attrs.get("initial") or first[0].attrs["id"]
+    env = gen.El("state", {"id": "senv"})
+    blk = env.add(gen.El("onentry"))
     small = bool((root.meta or {}).get("par_bias"))
+    delays = rp.sample(range(3, 60), rp.randint(1, 4) if not small else rp.randint(5, 10))
     for d in delays:
         blk.add(gen.El("send", {"event": rp.choice(["a", "b", "a", "b", "a.x"] if small else gen.EXT_EVENTS + ["a", "b"]), "delay": str(d)}, delay=d))
-    first[0].add(blk)
+    env.add(gen.El("transition", {"target": target}))
+    idx = min(i for i, c in enumerate(root.children) if c.tag in ("state", "parallel", "final"))
+    root.children.insert(idx, env)
+    env.parent = root
+    root.attrs["initial"] = "senv"
 
 
 def gen_plan(seed, k):
     rp = usimlib.substream(seed, "plan")
-    root = p_c01.gen_chart(rp, "promela", {"late": False, "delayed_internal": False, "few_raises": True})
+    root = p_c01.gen_chart(rp, "promela", {"late": False, "delayed_internal": False, "few_raises": True, "hist_p": 0.3, "quiet": rp.random() < 0.6})
     fit(root)
     environment(root, rp)
     return {"id": k, "seed": seed, "entropy_seed": seed & 0x7fffffff, "spin_seed": 1 + (seed % 9973),
@@ -281,6 +288,8 @@ def check(plan, usim, tag):
         info["skipped"] = "spin did not finish within 120 s"
         return v, info
     mstream, ext_order, problem, hit_limit = model_stream(text, out)
+    info["hist_restores"] = out.count("Established history in target set")
+    info["hist_defaults"] = out.count("Fresh history in target set")
     if problem:
         if "is type '_unnamed_'" in problem or "incorrect type of" in problem:
             # spin 6.5's simulator sometimes reports a structure-typed message as mistyped, printing freed memory as the
@@ -317,7 +326,7 @@ def check(plan, usim, tag):
         d += 1
     if d < len(a) or d < len(b):
         v.append(("C06.trace-differs", "record %d differs: interpreter=%s model=%s; before: %s; external order of the model: %s; follow=%s" % (
-            d, a[d] if d < len(a) else None, b[d] if d < len(b) else None, a[max(0, d - 4):d], ext_order[:12], fres[:1])))
+            d, a[d] if d < len(a) else None, b[d] if d < len(b) else None, a[max(0, d - 4):d], ext_order, fres[:1])))
     info["events"] = len([t for t in a if t[0] == "E"])
     info["cfgs"] = len([t for t in a if t[0] == "cfg"])
     info["nontrivial"] = info["events"] >= 2 and info["cfgs"] >= 3
@@ -339,6 +348,9 @@ def run_one(ctx, usim, seed, k, acc):
         acc.count("skipped: " + info["skipped"])
     acc.count("probe.events_compared", info["events"])
     acc.count("probe.configurations_compared", info["cfgs"])
+    acc.count("probe.history_restored_from_memory", info.get("hist_restores", 0) if not info["skipped"] else 0)
+    acc.count("probe.history_default_taken", info.get("hist_defaults", 0) if not info["skipped"] else 0)
+    acc.count("probe.runs_with_two_or_more_history_restores", 1 if (info.get("hist_restores", 0) >= 2 and not info["skipped"]) else 0)
     if info["nontrivial"]:
         acc.hashes.add(usimlib.hashlib.sha256((plan["charts"]["main"] + str(plan["spin_seed"])).encode()).hexdigest()[:16])
     for (rule, detail) in v:
